@@ -191,6 +191,12 @@ func (x *Exec) loadLoc(s *State, l *Loc) Val {
 			x.assumeTableFacts(s, strings.TrimPrefix(l.Path, "glob:"), v)
 		}
 		if ts, tn, field := x.classify(l.Path); ts != nil {
+			if mu, ok := ts.SubObjects[field]; ok && len(v.L) == 1 {
+				if s.ownedBy == nil {
+					s.ownedBy = map[string]string{}
+				}
+				s.ownedBy[v.L[0]] = l.Base + "|" + tn + "." + mu
+			}
 			if ts.AtomicCell[field] && len(v.L) == 1 {
 				if s.cellOrigin == nil {
 					s.cellOrigin = map[string]string{}
